@@ -252,7 +252,7 @@ func (ex *Exec) evalCall(c *ECall, env *CEnv, want string) TV {
 		r = &Term{S: sf.Name, Sort: sf.Ret}
 	}
 	if isBV(sf.Ret) {
-		r.Signed = true
+		r.Signed = !sf.Unsigned
 	}
 	return TV{V: r}
 }
